@@ -5,7 +5,7 @@
 (*   MD5_n = MD5{session_id, key, version, seq_no, MD5_n-1}                       *)
 (*   ENCRYPTED{data} = data ^ pseudo_pad ; unchanged when TAC_PLUS_UNENCRYPTED_FLAG *)
 (* Anchors in the code: crypt.go crypt(), crypter.read/write.                     *)
-EXTENDS Integers, Sequences, Bitwise, MD5
+EXTENDS Integers, Sequences, SequencesExt, Bitwise, MD5
 
 UnencryptedBit == 1
 
@@ -15,13 +15,14 @@ ClearFlag(fl) == (fl % 2) = 1
 \* session id is the 4 big-endian octets as they appear in the header
 PadSeed(sid4, key, ver, seq) == sid4 \o key \o <<ver>> \o <<seq>>
 
-RECURSIVE PadChain(_,_,_,_)
-\* acc holds k*16 octets; last is the previous digest (or <<>>)
-PadChain(seed, last, acc, n) ==
-   IF Len(acc) >= n THEN SubSeq(acc, 1, n)
-   ELSE LET d == MD5(seed \o last) IN PadChain(seed, d, acc \o d, n)
+\* the pad is built block by block with SequencesExt!FoldLeft (a Java-implemented fold hands each step an
+\* evaluated accumulator; a RECURSIVE formulation made TLC re-evaluate the digest chain quadratically)
+PadSteps(seed, k) ==
+   FoldLeft(LAMBDA out, i : out \o MD5(seed \o (IF out = <<>> THEN <<>> ELSE SubSeq(out, Len(out) - 15, Len(out)))),
+            <<>>, [i \in 1..k |-> i])
 
-Pad(key, sid4, ver, seq, n) == IF n = 0 THEN <<>> ELSE PadChain(PadSeed(sid4, key, ver, seq), <<>>, <<>>, n)
+Pad(key, sid4, ver, seq, n) ==
+   IF n = 0 THEN <<>> ELSE SubSeq(PadSteps(PadSeed(sid4, key, ver, seq), (n + 15) \div 16), 1, n)
 
 XorSeq(a, p) == [i \in 1..Len(a) |-> a[i] ^^ p[i]]
 
